@@ -333,8 +333,16 @@ class DefaultWorker(Worker):
                     pass
 
                 elif worker_proc.is_alive():
+                    # a task may handle or ignore SIGTERM (and may be waiting
+                    # for `res_lock`, which we hold): grant a grace period,
+                    # then use SIGKILL, so that the timeout is only reported
+                    # (and the resources are only freed) once the process is
+                    # gone
                     worker_proc.terminate()
-                    worker_proc.join()
+                    worker_proc.join(timeout=5.0)
+                    if worker_proc.is_alive():
+                        worker_proc.kill()
+                        worker_proc.join()
                     out = None
                     err = 'timeout (>%s)' % tout
                     ret = 1
